@@ -1,7 +1,7 @@
 SPECIFICATION Spec
 CONSTANTS
   MaxN = 7
-  MaxLen = 8
+  MaxLen = 9
 INVARIANTS
   MutationsRepeat
   OriginalAccepted
